@@ -121,6 +121,8 @@ func (w *Watcher) readEvents() {
 		sched.Block("fsnotify.read", func() bool {
 			return w.closed || (len(w.in.Queue) > 0 && len(w.Events) == 0)
 		})
+		sched.Touch(vfs.Env)
+		vsync.TouchChan(w.Events)
 		if w.closed {
 			return
 		}
@@ -195,6 +197,9 @@ func (w *Watcher) Close() error {
 	if err := vfs.Begin("inotify_close", ""); err != nil && err == vfs.ErrDead {
 		return err
 	}
+	sched.Touch(vfs.Env)
+	vsync.TouchChan(w.Events)
+	vsync.TouchChan(w.Errors)
 	w.closed = true
 	w.in.Closed = true
 	w.in.Watches = map[string]string{}
